@@ -18,6 +18,8 @@ from vlib import xhex, rnd_u64, U64
 
 THEOREMS = ["C10_print_parse", "C10_cbor_roundtrip", "C10_accepts_canonical", "C10_rejects", "C10_node_id", "C10_new_endpoint",
             "C10_api_image", "C10_total"]
+REPEAT = 2            # case lines repeated 66 000 times on one thread (state that builds up over many calls)
+REPEAT_CMDS = ('EID',)
 RELEASE = True          # debug and release builds of the harness (debug_assert!, overflow checks, cfg(debug_assertions))
 RULE = ("EID: grammar-generated canonical strings (dtn:none, dtn://node/service with arbitrary UTF-8 node and service names incl. "
         "': - % ~ .', empty node names, multi-segment and '~' services, ipn:n.s over the full u64 range), non-canonical accepted forms "
@@ -44,9 +46,9 @@ WS_SET = set(WS_CHARS)
 NAME_CHARS = list("abcxyzNODE019") + list(":-%~._+ @#?=&!$'()*,;[]\\\"") + [chr(c) for c in (0xe9, 0xfc, 0x20ac, 0x1f680, 0x3000, 0x85, 0xa0,
                                                                                              0x200b, 0x7f, 0x01, 0x09)]
 NODES = ["node1", "n", "", "none", "None", "dtn", "ipn", "a-5", "knoten-äö", "€", "x" * 23, "y" * 24, "home.net", "1", "node:1",
-         "\U0001f680", "a:b:c", "~n", "%2f", "-", ".", "..", "n one", " ", "dtn:none", "//", ":", "12.34", "+5"]
+         "\U0001f680", "a:b:c", "~n", "%2f", "-", ".", "..", "n one", " ", "dtn:none", "//", ":", "12.34", "+5", "sensor%41", "n%20x", "%7e", "GW1", "gw1", "nonesuch", "a.b."]
 SERVICES = ["", "in", "incoming", "~news", "~", "a/b/c", "tele/sensors/temperature", "123456", "a-5", "dienst-ü", "z" * 240, "-",
-            "1-2-3", "%20", "/", "//", "a/", "/a", "~a/~b", ":", "a:b", ".", "0", "none", " ", "x y", "\U0001f680/€", "a//b"]
+            "1-2-3", "%20", "/", "//", "a/", "/a", "~a/~b", ":", "a:b", ".", "0", "none", " ", "x y", "\U0001f680/€", "a//b", "%7Enews", "%7enews", "my%20inbox", "a%2Db", "inbox#urgent", "INBOX", "inbox", "Inbox", "%", "%4"]
 NUMS = [0, 1, 2, 9, 10, 23, 42, 255, 256, 65535, 65536, 2 ** 32 - 1, 2 ** 32, 2 ** 63 - 1, 2 ** 63, U64 - 2, U64 - 1]
 
 
@@ -240,6 +242,12 @@ def cases(rng, tier):
     out = []
     for _ in range(5000 * scale):
         out.append(_eid_line(valid_eid_text(rng)))
+        if rng.random() < 0.08:
+            # the same text in another letter case right afterwards, on the same thread: each is parsed on its own merits (a dtn name is
+            # case-sensitive, an upper-case scheme is unknown)
+            t = valid_eid_text(rng)
+            u = rng.choice([t.swapcase(), t.upper(), t[:4] + t[4:].swapcase()])
+            out.append("PAIR %s || %s" % (_eid_line(t), _eid_line(u)))
     for _ in range(4000 * scale):
         out.append(_eid_line(near_miss(rng)))
     for _ in range(4000 * scale):
